@@ -4,12 +4,14 @@ import (
 	"fmt"
 	"math/rand"
 	"strings"
+	"sync"
 	"time"
 
 	"github.com/btcsuite/btcd/btcutil/v2"
 	"github.com/btcsuite/btcd/btcutil/v2/gcs"
 	"github.com/btcsuite/btcd/btcutil/v2/gcs/builder"
 	"github.com/btcsuite/btcd/chainhash/v2"
+	"github.com/btcsuite/btcd/txscript/v2"
 	"github.com/btcsuite/btcd/wire/v2"
 	"github.com/lightninglabs/neutrino"
 
@@ -158,6 +160,7 @@ type chainT struct {
 	fhashes  []chainhash.Hash // filter hash by height
 	fheaders []chainhash.Hash // filter header by height
 	byHash   map[chainhash.Hash]int
+	prevs    [][][]byte // scripts of the outputs spent, by height (known to the harness only)
 }
 
 func randScript(r *rand.Rand, kind int) []byte {
@@ -212,17 +215,22 @@ func mkBlock(r *rand.Rand, prev chainhash.Hash, height int, ntx int, oprets bool
 }
 
 // newChain builds n blocks on the simnet genesis.  gfh is the genesis filter
-// header as stored by a fresh filter header store.
-func newChain(r *rand.Rand, n int, gfh chainhash.Hash, dense bool) *chainT {
+// header as stored by a fresh filter header store.  xseed seeds the
+// decoration of the blocks (unusual output scripts, witness inputs), force
+// names script kinds that the block of a height must contain.
+func newChain(r *rand.Rand, n int, gfh chainhash.Hash, dense bool, xseed int64, force map[int][]string) *chainT {
 	ch := &chainT{byHash: map[chainhash.Hash]int{}}
 	g := storeh.Params.GenesisBlock
-	ch.add(g)
+	ch.add(g, nil)
 	for h := 1; h <= n; h++ {
 		ntx := 0
 		if dense || r.Intn(4) == 0 {
 			ntx = 1 + r.Intn(3)
 		}
-		ch.add(mkBlock(r, ch.hashes[h-1], h, ntx, true))
+		b := mkBlock(r, ch.hashes[h-1], h, ntx, true)
+		xr := rand.New(rand.NewSource(xseed*1000003 + int64(h)))
+		prevs := decorate(b, xr, dense, force[h])
+		ch.add(b, prevs)
 	}
 	if ch.fheaders[0] != gfh {
 		panic("genesis filter header differs from the store's")
@@ -230,9 +238,9 @@ func newChain(r *rand.Rand, n int, gfh chainhash.Hash, dense bool) *chainT {
 	return ch
 }
 
-func (ch *chainT) add(b *wire.MsgBlock) {
+func (ch *chainT) add(b *wire.MsgBlock, prevs [][]byte) {
 	h := len(ch.blocks)
-	f, err := builder.BuildBasicFilter(b, nil)
+	f, err := builder.BuildBasicFilter(b, prevs)
 	if err != nil {
 		panic(err)
 	}
@@ -251,6 +259,7 @@ func (ch *chainT) add(b *wire.MsgBlock) {
 	ch.filters = append(ch.filters, f)
 	ch.fhashes = append(ch.fhashes, fh)
 	ch.fheaders = append(ch.fheaders, hstep(fh, prev))
+	ch.prevs = append(ch.prevs, prevs)
 }
 
 // truncated copy (shares the prefix)
@@ -261,10 +270,256 @@ func (ch *chainT) upTo(h int) *chainT {
 	c2.filters = append(c2.filters, ch.filters[:h+1]...)
 	c2.fhashes = append(c2.fhashes, ch.fhashes[:h+1]...)
 	c2.fheaders = append(c2.fheaders, ch.fheaders[:h+1]...)
+	c2.prevs = append(c2.prevs, ch.prevs[:h+1]...)
 	for i, x := range c2.hashes {
 		c2.byHash[x] = i
 	}
 	return c2
+}
+
+// ---------------------------------------------------------------------
+// Unusual scripts and witness inputs.
+
+const maxScriptSize = 10000 // txscript.MaxScriptSize
+
+// exoticScript makes an output script of an unusual kind:
+//   unparse  does not parse (a data push running past the end), first byte not OP_RETURN
+//   big      larger than txscript.MaxScriptSize, parses
+//   bigbad   larger than txscript.MaxScriptSize and does not parse
+//   empty    no script
+//   opretx   starts with OP_RETURN and does not parse
+//   p2tr     pay-to-taproot
+//   nonstd   a short non-standard script
+func exoticScript(r *rand.Rand, kind string) []byte {
+	switch kind {
+	case "unparse":
+		switch r.Intn(3) {
+		case 0: // OP_PUSHDATA1 announcing more than there is
+			s := make([]byte, 2+4+r.Intn(12))
+			r.Read(s)
+			s[0], s[1] = 0x4c, byte(0x40+r.Intn(0x80))
+			return s
+		case 1: // direct push of 32 bytes, a few present
+			s := make([]byte, 1+3+r.Intn(20))
+			r.Read(s)
+			s[0] = 0x20
+			return s
+		default: // a P2PKH prefix and then OP_PUSHDATA4 without its length
+			s := make([]byte, 25)
+			r.Read(s)
+			s[0], s[1], s[2] = 0x76, 0xa9, 0x14
+			return append(s[:23], 0x4e, 0xff)
+		}
+	case "big", "bigbad":
+		n := maxScriptSize + 1 + r.Intn(200)
+		s := make([]byte, n)
+		for i := range s {
+			s[i] = 0x61 // OP_NOP
+		}
+		s[0] = 0x08
+		r.Read(s[1:9])
+		if kind == "bigbad" {
+			s[n-1] = 0x4c // OP_PUSHDATA1 without length
+		}
+		return s
+	case "empty":
+		return []byte{}
+	case "opretx":
+		s := make([]byte, 3+r.Intn(6))
+		r.Read(s)
+		s[0], s[1], s[2] = 0x6a, 0x4c, 0xf0
+		return s
+	case "p2tr":
+		s := make([]byte, 34)
+		r.Read(s)
+		s[0], s[1] = 0x51, 0x20
+		return s
+	case "opret":
+		return randScript(r, 2)
+	default: // nonstd
+		return [][]byte{{0x51}, {0x00}, {0x51, 0x87}, {0xac}}[r.Intn(4)]
+	}
+}
+
+var exoticKinds = []string{"unparse", "unparse", "big", "bigbad", "empty", "opretx", "p2tr", "nonstd"}
+
+func scriptParses(s []byte) bool {
+	t := txscript.MakeScriptTokenizer(0, s)
+	for t.Next() {
+	}
+	return t.Err() == nil
+}
+
+func isExotic(s []byte) bool {
+	return len(s) > 0 && s[0] != 0x6a && (len(s) > maxScriptSize || !scriptParses(s))
+}
+
+// witnessInput rewrites the input as a witness spend and returns the script
+// of the output spent ("" kinds: wpkh, wsh, nested, tr, badsig).
+func witnessInput(r *rand.Rand, in *wire.TxIn, kind string) []byte {
+	rnd := func(n int) []byte { b := make([]byte, n); r.Read(b); return b }
+	pub := func() []byte { b := rnd(33); b[0] = 0x02 + byte(r.Intn(2)); return b }
+	derived := func() []byte {
+		pk, err := txscript.ComputePkScript(in.SignatureScript, in.Witness)
+		if err != nil {
+			return nil
+		}
+		return pk.Script()
+	}
+	switch kind {
+	case "wpkh":
+		in.SignatureScript = nil
+		in.Witness = wire.TxWitness{rnd(71), pub()}
+		return derived()
+	case "wsh":
+		in.SignatureScript = nil
+		in.Witness = wire.TxWitness{rnd(8), rnd(20 + r.Intn(30))}
+		return derived()
+	case "nested":
+		in.SignatureScript = append([]byte{0x16, 0x00, 0x14}, rnd(20)...)
+		in.Witness = wire.TxWitness{rnd(71), pub()}
+		return derived()
+	case "tr":
+		// key spend of a taproot output: ComputePkScript takes it for P2WSH,
+		// the script it derives is in no honest filter
+		in.SignatureScript = nil
+		in.Witness = wire.TxWitness{rnd(64)}
+		return exoticScript(r, "p2tr")
+	default: // badsig: a witness next to a signature script that is not push-only
+		in.Witness = wire.TxWitness{rnd(71), pub()}
+		return randScript(r, 1)
+	}
+}
+
+var witnessKinds = []string{"wpkh", "wpkh", "wsh", "nested", "tr", "badsig"}
+
+// decorate adds unusual output scripts and witness inputs to a block and
+// returns the scripts of the outputs its inputs spend (for the true filter).
+func decorate(b *wire.MsgBlock, xr *rand.Rand, dense bool, force []string) [][]byte {
+	if len(force) > 0 && len(b.Transactions) < 2 {
+		tx := wire.NewMsgTx(2)
+		var h chainhash.Hash
+		xr.Read(h[:])
+		tx.AddTxIn(wire.NewTxIn(wire.NewOutPoint(&h, 0), []byte{1, 2, 3}, nil))
+		tx.AddTxOut(wire.NewTxOut(7, randScript(xr, 0)))
+		b.AddTransaction(tx)
+	}
+	nonCb := b.Transactions[1:]
+	pEx, pCb, pWit := 25, 10, 20
+	if dense {
+		pEx, pCb, pWit = 45, 20, 35
+	}
+	if len(nonCb) > 0 && xr.Intn(100) < pEx {
+		for k := 1 + xr.Intn(2); k > 0; k-- {
+			tx := nonCb[xr.Intn(len(nonCb))]
+			tx.AddTxOut(wire.NewTxOut(int64(1+xr.Intn(100)), exoticScript(xr, exoticKinds[xr.Intn(len(exoticKinds))])))
+		}
+	}
+	if xr.Intn(100) < pCb {
+		kind := "opret" // witness commitment
+		if xr.Intn(3) == 0 {
+			kind = exoticKinds[xr.Intn(len(exoticKinds))]
+		}
+		b.Transactions[0].AddTxOut(wire.NewTxOut(0, exoticScript(xr, kind)))
+	}
+	for _, k := range force {
+		if strings.HasPrefix(k, "cb-") {
+			b.Transactions[0].AddTxOut(wire.NewTxOut(0, exoticScript(xr, k[3:])))
+		} else if !strings.HasPrefix(k, "wit-") {
+			nonCb[0].AddTxOut(wire.NewTxOut(5, exoticScript(xr, k)))
+		}
+	}
+	var prevs [][]byte
+	for _, tx := range nonCb {
+		for _, in := range tx.TxIn {
+			if xr.Intn(100) < pWit {
+				if p := witnessInput(xr, in, witnessKinds[xr.Intn(len(witnessKinds))]); len(p) > 0 {
+					prevs = append(prevs, p)
+				}
+			}
+		}
+	}
+	for _, k := range force {
+		if strings.HasPrefix(k, "wit-") {
+			if p := witnessInput(xr, nonCb[0].TxIn[0], k[4:]); len(p) > 0 {
+				prevs = append(prevs, p)
+			}
+		}
+	}
+	return prevs
+}
+
+// ---------------------------------------------------------------------
+// The abstract block of the Coq model and the ground truth of a filter.
+
+type absBlock struct {
+	term    string
+	scripts [][]byte // token t (>= 1) is scripts[t-1]
+}
+
+var absCache sync.Map // *wire.MsgBlock -> *absBlock
+
+func absOf(b *wire.MsgBlock) *absBlock {
+	if a, ok := absCache.Load(b); ok {
+		return a.(*absBlock)
+	}
+	a := &absBlock{}
+	toks := map[string]int64{}
+	tok := func(s []byte) int64 {
+		if t, ok := toks[string(s)]; ok {
+			return t
+		}
+		a.scripts = append(a.scripts, s)
+		toks[string(s)] = int64(len(a.scripts))
+		return int64(len(a.scripts))
+	}
+	var txs []string
+	for _, tx := range b.Transactions {
+		var outs, ins []string
+		for _, o := range tx.TxOut {
+			if len(o.PkScript) == 0 {
+				outs = append(outs, "(0, 0, -1, true)")
+				continue
+			}
+			outs = append(outs, fmt.Sprintf("(%d, %d, %d, %s)", tok(o.PkScript), len(o.PkScript),
+				o.PkScript[0], c.Bool(scriptParses(o.PkScript))))
+		}
+		for _, in := range tx.TxIn {
+			switch {
+			case len(in.Witness) == 0:
+				ins = append(ins, "-1")
+			default:
+				pk, err := txscript.ComputePkScript(in.SignatureScript, in.Witness)
+				if err != nil {
+					ins = append(ins, "-2")
+				} else {
+					ins = append(ins, fmt.Sprint(tok(pk.Script())))
+				}
+			}
+		}
+		txs = append(txs, fmt.Sprintf("(%s, %s)", c.List(outs), c.List(ins)))
+	}
+	a.term = c.List(txs)
+	absCache.Store(b, a)
+	return a
+}
+
+// matched lists the tokens of the block's scripts the filter matches:
+// gcs.Filter.Match on every script, without VerifyBasicBlockFilter.
+func (a *absBlock) matched(f *gcs.Filter, b *wire.MsgBlock) string {
+	bh := b.BlockHash()
+	key := builder.DeriveKey(&bh)
+	var ms []int64
+	for i, s := range a.scripts {
+		ok, err := f.Match(key, s)
+		if err != nil {
+			panic(err)
+		}
+		if ok {
+			ms = append(ms, int64(i+1))
+		}
+	}
+	return zlist(ms)
 }
 
 // ---------------------------------------------------------------------
@@ -273,67 +528,111 @@ func (ch *chainT) upTo(h int) *chainT {
 const (
 	fTrue     = "true"
 	fOmit     = "omit"     // leaves out one output script that must match
+	fOmitX    = "omitx"    // leaves out an unparseable / oversized output script (if the block has one)
+	fOmitCb   = "omitcb"   // leaves out an output script of the coinbase transaction
+	fOmitPrev = "omitprev" // leaves out the script of a spent output (not refutable from the block)
 	fExtra    = "extra"    // one more element (matches everything it must)
 	fOpret    = "opret"    // also indexes the OP_RETURN outputs (old-style)
 	fOtherKey = "otherkey" // built with a different key: nothing matches
+	fEmpty    = "empty"    // no element at all
 )
 
-func blockScripts(b *wire.MsgBlock) (must [][]byte, coinbase [][]byte, oprets [][]byte) {
+// the scripts BIP-158 indexes, by where they are
+type scriptSets struct {
+	cb, must, exotic, oprets [][]byte
+}
+
+func blockScripts(b *wire.MsgBlock) (ss scriptSets) {
 	for i, tx := range b.Transactions {
 		for _, o := range tx.TxOut {
 			if len(o.PkScript) == 0 {
 				continue
 			}
 			if o.PkScript[0] == 0x6a {
-				oprets = append(oprets, o.PkScript)
+				ss.oprets = append(ss.oprets, o.PkScript)
 				continue
 			}
 			if i == 0 {
-				coinbase = append(coinbase, o.PkScript)
+				ss.cb = append(ss.cb, o.PkScript)
 			} else {
-				must = append(must, o.PkScript)
+				ss.must = append(ss.must, o.PkScript)
+				if isExotic(o.PkScript) {
+					ss.exotic = append(ss.exotic, o.PkScript)
+				}
 			}
 		}
 	}
 	return
 }
 
-func doctored(kind string, b *wire.MsgBlock, truth *gcs.Filter, salt int) *gcs.Filter {
+func without(l [][]byte, i int) [][]byte {
+	out := append([][]byte{}, l[:i]...)
+	return append(out, l[i+1:]...)
+}
+
+func (ch *chainT) doctored(kind string, h int, salt int) *gcs.Filter {
+	return doctoredB(kind, ch.blocks[h], ch.prevs[h], ch.filters[h], salt)
+}
+
+func doctoredB(kind string, b *wire.MsgBlock, prevs [][]byte, truth *gcs.Filter, salt int) *gcs.Filter {
 	bh := b.BlockHash()
-	must, cb, oprets := blockScripts(b)
-	var data [][]byte
-	data = append(data, cb...)
+	ss := blockScripts(b)
+	cb, must := ss.cb, ss.must
+	var extra [][]byte
 	key := builder.DeriveKey(&bh)
+	if kind == fOmitX && len(ss.exotic) == 0 {
+		kind = fOmit
+	}
+	if kind == fOmit && len(must) == 0 {
+		kind = fOmitCb
+	}
 	switch kind {
 	case fTrue:
 		return truth
 	case fOmit:
-		if len(must) == 0 {
-			// nothing that must match: fall back to an extra element
-			data = append(data, []byte{byte(salt), 9, 9, 9})
-		} else {
-			drop := salt % len(must)
-			for i, s := range must {
-				if i != drop {
-					data = append(data, s)
-				}
+		must = without(must, salt%len(must))
+		extra = append(extra, []byte{byte(salt), 7, 7})
+	case fOmitX:
+		drop := ss.exotic[salt%len(ss.exotic)]
+		for i, s := range must {
+			if string(s) == string(drop) {
+				must = without(must, i)
+				break
 			}
-			data = append(data, []byte{byte(salt), 7, 7})
+		}
+		extra = append(extra, []byte{byte(salt), 7, 7})
+	case fOmitCb:
+		if len(cb) == 0 {
+			extra = append(extra, []byte{byte(salt), 9, 9, 9})
+		} else {
+			cb = without(cb, salt%len(cb))
+			extra = append(extra, []byte{byte(salt), 7, 7})
+		}
+	case fOmitPrev:
+		if len(prevs) == 0 {
+			extra = append(extra, []byte{byte(salt), 9, 9, 9})
+		} else {
+			prevs = without(prevs, salt%len(prevs))
+			extra = append(extra, []byte{byte(salt), 7, 7})
 		}
 	case fExtra:
-		data = append(data, must...)
-		data = append(data, []byte{byte(salt), 8, 8, 8, 8})
+		extra = append(extra, []byte{byte(salt), 8, 8, 8, 8})
 	case fOpret:
-		data = append(data, must...)
-		data = append(data, oprets...)
-		if len(oprets) == 0 {
-			data = append(data, []byte{byte(salt), 6, 6})
+		extra = append(extra, ss.oprets...)
+		if len(ss.oprets) == 0 {
+			extra = append(extra, []byte{byte(salt), 6, 6})
 		}
 	case fOtherKey:
-		data = append(data, must...)
 		key[0] ^= 0x55
 		key[3] ^= byte(salt + 1)
+	case fEmpty:
+		cb, must, prevs = nil, nil, nil
 	}
+	var data [][]byte
+	data = append(data, cb...)
+	data = append(data, must...)
+	data = append(data, prevs...)
+	data = append(data, extra...)
 	f, err := gcs.BuildGCSFilter(builder.DefaultP, builder.DefaultM, key, data)
 	if err != nil {
 		panic(err)
@@ -360,7 +659,7 @@ func oracleRow(in *interner, f *gcs.Filter, b *wire.MsgBlock) (int64, string) {
 	if err == nil {
 		v = c.Some(c.Z(int64(n)))
 	}
-	return ft, fmt.Sprintf("(%d, %d, %s)", ft, in.tok(h), v)
+	return ft, fmt.Sprintf("(%d, %d, %s, %s)", ft, in.tok(h), v, absOf(b).matched(f, b))
 }
 
 func joinLines(items []string) string { return strings.Join(items, ";\n  ") }
